@@ -277,8 +277,11 @@ class PandasCheckBackend(BaseCheckBackend):
         # are nulls.
         select_failure_cases = check_obj[~check_output]
         failure_cases_list: List[pd.DataFrame] = []
-        for col in select_failure_cases.columns:
-            cases = select_failure_cases[col].rename("failure_case").dropna()
+        for i, col in enumerate(select_failure_cases.columns):
+            # select by position: column labels may be repeated
+            cases = (
+                select_failure_cases.iloc[:, i].rename("failure_case").dropna()
+            )
             if len(cases) == 0:
                 continue
             failure_cases_list.append(
